@@ -36,6 +36,18 @@ def obligations(tier):
         n = w + 1 + EXTRA.get(name, 3)
         obs.append(Ob(f"cfg:{spec_name(('ind', name, kw))}{extra}/batch/n={n}", dict(spec=["ind", name, kw], n=n, mode="batch", extra=extra), TOT, weight=n * 5, budget_s=300, max_paths=200000))
         obs.append(Ob(f"cfg:{spec_name(('ind', name, kw))}{extra}/fill-gap/n={max(3, w + 1)}", dict(spec=["ind", name, kw], n=max(3, w + 1), mode="fill", extra=extra), TOT, weight=n * 5, budget_s=300, max_paths=200000))
+    # chained on another member's output, which starts late (SMA(3): first reading on the third candle; a dotted dict field
+    # of MACD: on the fourth): helper series fed from the candles and helper series fed from the input warm up at different times
+    from hexital.indicators import INDICATOR_MAP
+    for kind, name, kw, w in all_specs(tier):
+        if kind != "ind" or "input_value" not in getattr(INDICATOR_MAP[name], "__dataclass_fields__", {}) or name in ("ADX", "Counter"):
+            continue
+        for src in (("SMA_3", "volume") if (tier == "quick" and name not in ("KC", "BBANDS", "STOCH")) else ("SMA_3", "MACD_2_3_2.signal", "volume")):
+            late = {"SMA_3": 2, "volume": 0}.get(src, 3)     # 'volume': a price field that may be exactly 0 on any candle
+            n = late + w + (2 if name in EXTRA else 3)
+            for feed in ("batch", "append"):
+                obs.append(Ob(f"chained on {src}/{spec_name((kind, name, kw))}/{feed}/n={n}", dict(spec=[kind, name, dict(kw, input_value=src)], n=n, mode="chained", feed=feed, src=src), TOT,
+                              weight=n * (20 if name in EXTRA else 2), budget_s=300 if tier == "quick" else 3600, max_paths=200000))
     # floating-point lemma for the one kernel whose DOMAIN depends on the sign of a cancelling sum (sqrt of the running
     # variance): every arithmetic result carries the standard relative error, and sqrt forks on a negative argument
     for name, kw in ((("STDEV", dict(period=2)), ("STDEV", dict(period=3)), ("BBANDS", dict(period=2)), ("STDEVTHRES", dict(period=2))) if tier == "thorough" else ()):
@@ -110,6 +122,21 @@ def check_values(ctx, candles, outname):
 def run(ctx, P):
     spec = tuple(P["spec"][:3])
     n = P["n"]
+    if P["mode"] == "chained":
+        _, _, Candle, _, Hexital = lib()
+        cs = mk_candles(ctx, n)
+        source = {"SMA_3": lambda: [build("SMA", dict(period=3))], "volume": lambda: []}.get(P["src"], lambda: [build("MACD", dict(fast_period=2, slow_period=3, signal_period=2))])()
+        ind = build_any(spec)
+        if P["feed"] == "batch":
+            hx = Hexital("hx", cs, source + [ind])
+            hx.calculate()
+        else:
+            hx = Hexital("hx", [], source + [ind])
+            for c in cs:
+                hx.append(c)
+        ctx.observe("readings", ind.as_list())
+        check_values(ctx, hx.candles(), ind.name)
+        return
     if P["mode"] == "batch":
         cs = mk_candles(ctx, n)
         ind = build_any(spec, candles=cs, **(P.get("extra") or {}))
